@@ -37,7 +37,17 @@ type cfgOpts struct {
 	tinyOK     bool
 }
 
-func genValidCfg(t *rapid.T) Cfg { return genValidCfgOpt(t, cfgOpts{tinyOK: true}) }
+// genValidCfg draws a valid configuration from one of two independent
+// constructive generators: the hand-weighted one below (interacting origin
+// patterns, frequent *, normalisable methods) or the labelled-atom one of
+// model_validate.go (wider vocabulary: exotic method tokens, safelisted and
+// odd-case header names, every valid origin atom).
+func genValidCfg(t *rapid.T) Cfg {
+	if chance(t, "atomcfg", 35) {
+		return genValidAtomCfg(t)
+	}
+	return genValidCfgOpt(t, cfgOpts{tinyOK: true})
+}
 
 func genValidCfgOpt(t *rapid.T, o cfgOpts) Cfg {
 	var c Cfg
